@@ -70,6 +70,19 @@ theorem C13_unsigned_positive (r : Rel) (a a' : ADict V) (k k' : VName) (v : V)
   · cases hset
 
 
+/-- **Unsigned dictionaries ignore every sign, for every operation sequence**: a run on
+    dictionaries with `signed_values = False` is the run under the relation with all signs set
+    to `+` — whatever the value type (nominals, Python types, anything without a minus). -/
+theorem C13_unsigned_run (r : Rel) (ops : List (Op V)) :
+    ∀ s : St V, s.cur.signedValues = false → s.alt.signedValues = false →
+      run r.unsign s ops = run r s ops := by
+  induction ops with
+  | nil => intro s _ _; rfl
+  | cons op ops ih =>
+    intro s hc ha
+    obtain ⟨f1, f2⟩ := step_flags r s op false hc ha
+    simp only [run, step_unsign r s op hc, ih _ f1 f2]
+
 /-! ## every operation sequence behaves as the abstract map canonical ↦ value -/
 
 /-- **Refinement**: for every relation, every operation sequence (`set, get, del, contains, len,
